@@ -316,6 +316,48 @@ fn simplify(s: &Step) -> Vec<Step> {
                 out.push(Step::Wrap { blob: *blob, node: *node, wk: *wk, key: *key, with: with.clone(), params: params.clone(), rng: RngSpec::Prng { seed: rng.seed() } });
             }
         }
+        Step::Threads { spec } => {
+            use crate::sched::{SchedKind, TOp};
+            let with_scripts = |scripts: Vec<Vec<TOp>>| {
+                let n = scripts.len().max(1);
+                let scripts = scripts
+                    .into_iter()
+                    .map(|s| s.into_iter().map(|op| if let TOp::HandOff { kind, to } = op { TOp::HandOff { kind, to: to % n } } else { op }).collect())
+                    .collect();
+                Step::Threads { spec: crate::sched::ThreadSpec { scripts, ..spec.clone() } }
+            };
+            // fewer threads, then shorter scripts (halves, then single operations), then a plain schedule
+            if spec.scripts.len() > 1 {
+                for t in 0..spec.scripts.len() {
+                    let mut sc = spec.scripts.clone();
+                    sc.remove(t);
+                    out.push(with_scripts(sc));
+                }
+            }
+            for t in 0..spec.scripts.len() {
+                let len = spec.scripts[t].len();
+                if len > 1 {
+                    let mut a = spec.scripts.clone();
+                    a[t].truncate(len / 2);
+                    out.push(with_scripts(a));
+                    let mut c = spec.scripts.clone();
+                    c[t].drain(..len / 2);
+                    out.push(with_scripts(c));
+                }
+            }
+            for t in 0..spec.scripts.len() {
+                if spec.scripts[t].len() > 1 {
+                    for i in (0..spec.scripts[t].len()).rev() {
+                        let mut a = spec.scripts.clone();
+                        a[t].remove(i);
+                        out.push(with_scripts(a));
+                    }
+                }
+            }
+            if !matches!(spec.sched, SchedKind::RoundRobin) {
+                out.push(Step::Threads { spec: crate::sched::ThreadSpec { sched: SchedKind::RoundRobin, ..spec.clone() } });
+            }
+        }
         Step::History { node, op, count, tag } => {
             for c in [1u32, 2, 16, count / 2] {
                 if c < *count && c > 0 {
